@@ -554,10 +554,57 @@ def validate_gate_parameters(compiled, device=None):
             "Program cannot be matched with the device layout due to incompatible topology."
         ) from e
 
+    # gate arguments that the layout fixes to a number must be reproduced by the program
+    _validate_fixed_arguments(bb_device, compiled)
+
     # raises ValueError if parameters are invalid
     device.validate_parameters(**user_parameters)
 
     return user_parameters
+
+
+def _validate_fixed_arguments(template, program):
+    """Checks the gate arguments that a device layout fixes to numerical values.
+
+    ``match_template`` only extracts the values of the template parameters; an argument that
+    the layout fixes (such as the phase of the two-mode squeezers of the X series) is not
+    compared with the program.
+
+    Args:
+        template (blackbird.BlackbirdProgram): the device layout
+        program (blackbird.BlackbirdProgram): the program, already matched with the layout
+
+    Raises:
+        CircuitError: if the program has a different value than the one fixed by the layout
+    """
+
+    def number(x):
+        if getattr(x, "free_symbols", None) or isinstance(x, (str, np.ndarray)):
+            return None
+        try:
+            return complex(x)
+        except (TypeError, ValueError):
+            return None
+
+    def node_match(n1, n2):
+        return n1["name"] == n2["name"] and n1["modes"] == n2["modes"]
+
+    G1 = bb.utils.to_DiGraph(template)
+    G2 = bb.utils.to_DiGraph(program)
+    GM = nx.algorithms.isomorphism.DiGraphMatcher(G1, G2, node_match)
+    if not GM.is_isomorphic():
+        return
+
+    for n1, n2 in GM.mapping.items():
+        for x, y in zip(G1.nodes[n1]["args"], G2.nodes[n2]["args"]):
+            fixed, value = number(x), number(y)
+            if fixed is not None and value is not None and not np.isclose(fixed, value):
+                raise CircuitError(
+                    "Program cannot be matched with the device layout: the argument {} of the gate "
+                    "{} on modes {} is fixed to {} by the layout.".format(
+                        y, G1.nodes[n1]["name"], G1.nodes[n1]["modes"], x
+                    )
+                )
 
 
 def remove_loss(circuit):
